@@ -54,6 +54,16 @@ def cases(rng, n, only=None):
             spts = [[x * fl for x in p] if isinstance(p, (list, tuple)) else p * fl for p in pts]
             out.append({'what': what + ' units', 'a': [mod, cls, P, pts, t], 'b': [mod, cls, S, spts, t * dim(*sc, **tdim)],
                         'factors': {f: dim(*sc, **d) for f, d in fdims.items()}, 'tol': tol, 'scales': list(sc)})
+    # Guderley: the similarity solution fixes length and time (collapse at t = 0.75, shock at r = 1 at t = 0); the only free unit is mass, through rho0:
+    # density and pressure scale with it, velocity / sound speed / specific internal energy do not - before and after the reflection, on both
+    # sides of both shocks (gamma = 3: the eigenvalue search is fast)
+    if not only or 'Guderley' in only:
+        mu = r4(rng, 0.05, 20); geo = rng.choice([2, 3]); r0 = r4(rng, 0.5, 2)
+        for tg in (0.3, 1.125):
+            Pg = {'geometry': geo, 'gamma': 3.0, 'rho0': r0}
+            out.append({'what': 'Guderley mass units', 'a': ['exactpack.solvers.guderley', 'Guderley', Pg, [0.1, 0.2, 0.5, 1.0, 3.0], tg],
+                        'b': ['exactpack.solvers.guderley', 'Guderley', dict(Pg, rho0=r0 * mu), [0.1, 0.2, 0.5, 1.0, 3.0], tg],
+                        'factors': {'density': mu, 'pressure': mu, 'velocity': 1.0, 'sound_speed': 1.0, 'specific_internal_energy': 1.0}, 'tol': 1e-8, 'scales': [mu]})
     for _ in range(n):
         g = rng.choice([1, 2, 3]); gam = r4(rng, 1.2, 2.2)
         # Sedov (points on both sides of the shock)
